@@ -74,6 +74,20 @@ impl KeyCampaign {
     };
     let ho = swarm_hist(&mut rng, thorough, self.faults, self.resets, dist);
     let ops = gen_ops(&mut rng, &layout, &ho, st);
+    // one run in three (never for shipped layouts, whose keys mean what they say) is renamed over
+    // the whole key-code space
+    if self.source != Source::Shipped && rng.chance(1, 3) {
+      let mut used = layout_keys(&layout);
+      for o in &ops { match o { Op::Ev(e) | Op::Unseen(e) => { let k = ev_key(e); if !used.contains(&k) { used.push(k); } } Op::Reset => {} } }
+      let keep: Vec<KeyCode> = if dist { DIST.to_vec() } else { vec![] };
+      let map = random_renaming(&mut rng, &used, &keep);
+      let l2 = rename_layout(&map, &layout);
+      if let Some(l3) = through_loader(&l2) {
+        let ops2: Vec<Op> = ops.iter().map(|o| match o { Op::Ev(e) => Op::Ev(rename_event(&map, e)), Op::Unseen(e) => Op::Unseen(rename_event(&map, e)), Op::Reset => Op::Reset }).collect();
+        st.renamed += 1;
+        return CaseA { layout: l3, layout_name: format!("{}-renamed", name), dist, ops: ops2 };
+      }
+    }
     CaseA { layout, layout_name: name, dist, ops }
   }
 }
@@ -104,6 +118,7 @@ impl Campaign for KeyCampaign {
     ctx.acc.fault("reset_release_all", st.resets);
     ctx.acc.fault("unseen_key_activity", st.unseen);
     ctx.acc.count("intent_steps", st.intent_steps);
+    ctx.acc.count("runs_with_keys_renamed_over_the_whole_code_space", st.renamed);
     ctx.acc.count("biased_steps", st.biased);
     let mut obs = Obs::default();
     obs.collect_states = true;
